@@ -12,7 +12,7 @@ PROPERTY = 'C13'
 LEVEL = 'exploration'
 RULE = ('fragment texts built as token lists: a random molecule (or coarse graph) is rendered as SMILES (random start atom, '
         'neighbour order, ring digits 1-9/%nn, ring bond symbol at opening/closing digit, bracket atoms with H count / charge, '
-        'two-letter elements, the wildcard [*] on the text reader), THEN 0-4 descriptors per atom (kinds $ > < !, optional label, order symbol from . - = # $ or '
+        'two-letter elements, the wildcard [*] on the text reader; coarse graphs also with a node multiplied 1-12 times by the expansion operator), THEN 0-4 descriptors per atom (kinds $ > < !, optional label, order symbol from . - = # $ or '
         'none) are inserted after atoms - before, after or between ring digits, or leading for the first atom - and '
         'annotations (positional/keyword weight, chirality, free keys) inside bracket atoms. Expected result is known by '
         'construction: text without insertions, ordered descriptor list kind+label+order per atom index, annotation dict per '
@@ -167,9 +167,23 @@ def cases(seed, tier, shard, nshards):
                 t = tokens[k]
                 tokens[k] = ('atom', '[*;' + annots[t[2]][0] + ']', t[2], '[*]') if len(t) > 3 else ('atom', '[*]', t[2])
                 wildcard = True
+        idx = {n: i for i, n in enumerate(atoms)}
+        natoms = len(atoms)
+        multiplied = 0
+        if coarse and rng.random() < 0.3:
+            # the expansion operator behind a plain node: the node stands n times, what is written behind it (descriptors,
+            # branches, the next node) belongs to / follows the LAST copy, and every later node counts from there
+            ks = [k for k, t in enumerate(tokens) if t[0] == 'atom' and len(t) == 3
+                  and not any(x[0] == 'ring' and x[2] == t[2] for x in tokens)]
+            if ks:
+                k = rng.choice(ks)
+                multiplied = rng.choice([1, 2, 3, 3, 4, 5, 6, 12])
+                at = idx[tokens[k][2]]
+                tokens.insert(k + 1, ('mult', '|%d' % multiplied))
+                idx = {n: (i + multiplied - 1 if i >= at else i) for n, i in idx.items()}
+                natoms += multiplied - 1
         text = ''.join(tok_text(t) for t in tokens)
         clean = ''.join(tok_text(t, True) for t in tokens)
-        idx = {n: i for i, n in enumerate(atoms)}
         exp_desc = {}
         feats = {'coarse' if coarse else 'atomistic'}
         prev = None
@@ -213,8 +227,10 @@ def cases(seed, tier, shard, nshards):
             feats.add('annotation')
         if wildcard:
             feats.add('wildcard_bracket_atom')
+        if multiplied:
+            feats.add('multiplied_node' if multiplied <= 2 else 'node_multiplied_3plus_times')
         yield dict(text_only=wildcard, text=text, clean=clean, desc={str(k): v for k, v in exp_desc.items()}, attrs=exp_attr,
-                   natoms=len(atoms), coarse=coarse, features=sorted(feats))
+                   natoms=natoms, coarse=coarse, features=sorted(feats))
 
 
 def check_once(case, tag=''):
